@@ -85,9 +85,28 @@ type result struct {
 }
 
 // workload: create, load, query, create atoms (atom_codes, atom_concat, parsing), write, number_codes.
-func workload(p *gen.Program, salt string, k int, big bool) result {
-	var r result
-	i := sut.New()
+func workload(i *sut.I, p *gen.Program, salt string, k int, big bool) (r result) {
+	// the first thing every interpreter does after the common start: read one text holding 100 atoms that are new to
+	// the process and the same in all interpreters of the round (they are interned within microseconds of each other)
+	var names []string
+	for j := 0; j < 100; j++ {
+		names = append(names, fmt.Sprintf("batch_%s_%d", salt, j))
+	}
+	batch := "[" + strings.Join(names, ", ") + "]"
+	if rr := i.Query("assertz(batch("+batch+")).", nil, 2, 200000); rr.Err != nil || len(rr.Answers) != 1 {
+		r.err = fmt.Errorf("interpreter %d: storing the batch of new atoms failed: %v", k, rr.Err)
+		return r
+	}
+	defer func() {
+		// at the end the stored atoms are still the atoms those names denote, pairwise distinct
+		if r.err != nil {
+			return
+		}
+		rr := i.Query("batch(L), L == "+batch+", sort(L, S), length(S, N).", []string{"N"}, 2, 500000)
+		if rr.Err != nil || len(rr.Answers) != 1 || rr.Answers[0][0].String() != "100" {
+			r.err = fmt.Errorf("interpreter %d: the 100 atoms stored at the start are no longer the atoms their names denote (answers %v, err %v)", k, rr.Answers, rr.Err)
+		}
+	}()
 	if e := i.Exec(p.Text(), 2_000_000); e != nil {
 		r.err = fmt.Errorf("load failed: %s", e)
 		return r
@@ -236,16 +255,20 @@ func checkRound(c Case) (atoms int, err error) {
 		progs[k] = saltProgram(p, salt)
 	}
 	results := make([]result, c.N)
-	var start, done sync.WaitGroup
+	var ready, start, done sync.WaitGroup
 	start.Add(1)
 	for k := 0; k < c.N; k++ {
 		done.Add(1)
+		ready.Add(1)
 		go func(k int) {
 			defer done.Done()
+			i := sut.New() // (created before the common start, so that the first texts are read at the same moment)
+			ready.Done()
 			start.Wait()
-			results[k] = workload(progs[k%len(progs)], salt, k, c.Big)
+			results[k] = workload(i, progs[k%len(progs)], salt, k, c.Big)
 		}(k)
 	}
+	ready.Wait()
 	start.Done()
 	done.Wait()
 	minAtoms := 1 << 30
@@ -257,7 +280,7 @@ func checkRound(c Case) (atoms int, err error) {
 			minAtoms = results[k].atoms
 		}
 		// alone, afterwards (the atoms exist by now; the answers do not depend on that)
-		solo := workload(progs[k%len(progs)], salt, k, false)
+		solo := workload(sut.New(), progs[k%len(progs)], salt, k, false)
 		if solo.err != nil {
 			return 0, fmt.Errorf("infrastructure: the solo run failed: %v", solo.err)
 		}
@@ -493,7 +516,7 @@ func TestProp(t *testing.T) {
 		r.LabelN("file_system_independence_checks", 3)
 	}
 	r.Rapid(t, "rounds", r.Pick(240, 8000), func(t *rapid.T) {
-		c := Case{Kind: "round", N: rapid.IntRange(2, 8).Draw(t, "n")}
+		c := Case{Kind: "round", N: 2 + int(rapid.Uint64().Draw(t, "n")%7)} // (uniform: rapid.IntRange favours the small values)
 		c.Big = rapid.Uint64().Draw(t, "big")%8 == 7
 		np := 1
 		if rapid.Bool().Draw(t, "distinct_programs") {
